@@ -84,12 +84,24 @@ class MultiObjectiveExperimenter(experimenter.Experimenter):
       for idx, copied in enumerate(suggestions_copy):
         measurement = measurements[idx]
         assert copied.final_measurement is not None
+        if (
+            copied.infeasible
+            and exptr_metric_name not in copied.final_measurement.metrics
+        ):
+          # Infeasible trials may come back without the objective.
+          continue
         measurement.metrics[name] = copied.final_measurement.metrics[
             exptr_metric_name
         ]
 
-    for suggestion, measurement in zip(suggestions, measurements):
-      suggestion.complete(measurement)
+    # The copies are shared by all objectives and Trial.complete() keeps an
+    # earlier infeasibility, so a copy is infeasible iff any objective was.
+    for suggestion, measurement, copied in zip(
+        suggestions, measurements, suggestions_copy
+    ):
+      suggestion.complete(
+          measurement, infeasibility_reason=copied.infeasibility_reason
+      )
 
     return suggestions
 
